@@ -22,11 +22,11 @@ func ctlJobs(tier string) []Job {
 				for _, capa := range caps {
 					small := cons == "none" || (c == "close" && (cons == "events" || cons == "errors"))
 					if tier == "thorough" {
-						if small {
-							add(h, c, cons, capa, 3)
-						} else {
-							add(h, c, cons, capa, 2)
-						}
+						// unbounded: every interleaving, made finite by global-state-key pruning (the oracles of
+						// C05/C06/C13 are end-state and per-thread, which is what the key preserves)
+						jobs = append(jobs, Job{Family: "ctl", Bound: -1, Prune: true,
+							Params: map[string]any{"hist": h, "c": c, "ctl": c, "cons": cons, "cap": capa}})
+						_ = small
 						continue
 					}
 					if c != "close" && (capa == 4 || capa == 1 && cons != "none" || cons == "both-stop2") {
